@@ -13,11 +13,57 @@ LEVEL_NOTE = ('Trusted base: the reference model / independent readers in /verif
 
 # id -> (technique, level text, design section)
 CHECKS = {
+    'C01': ('exhaustive tables x all subsets + Hypothesis (incl. >64-column) tables vs cell-by-cell definition of the derivations',
+            'intension/extension are compared, for every subset of every table up to 12/16 cells and for structured '
+            'subsets of wide (60-140 column/row) tables, with the definition evaluated cell by cell on the input; '
+            'argument forms (repeats, order, iterators) and raw/label forms are varied.', '3 C01'),
+    'C02': ('exhaustive tables x all non-empty subsets vs reference closure + leastness/closure-law checks + identity of returned members',
+            'context[...] / lattice[...] / lattice(...) are checked against the reference closure, against leastness '
+            'among all reference concepts, and for object identity with the lattice members.', '3 C02'),
     'C03': ('exhaustive small-table enumeration + Hypothesis table families vs brute-force concept model',
             'Every boolean table up to 12 cells (quick) / 16 cells, 4x5, 5x4 and all 5x5 / 6x4 row multisets (thorough) '
             'is compared with an independent closure-system model, plus seeded Hypothesis tables from explicit fill '
             'families up to 10x10; exploration is the right level because the property is a pure function of a small '
             'structured input and an obviously-correct oracle exists.', '3 C03'),
+    'C04': ('differential: four generators vs brute-force concept model on exhaustive + Hypothesis tables',
+            'fast_generate_from, fcbo_dual, iterconcepts, get_concepts are each compared (as repeat-free sets) with the '
+            'reference concept set on the C03 enumerations.', '3 C04'),
+    'C05': ('exhaustive + Hypothesis tables x all concepts vs covering relation computed by search',
+            'upper/lower neighbours, their converse and Context.neighbors for all object subsets are compared with '
+            'covers computed by search over the reference concepts.', '3 C05'),
+    'C06': ('exhaustive + Hypothesis tables (labels permuted against position) vs sort keys of the reference model, on computed / reloaded / raw-reloaded lattices',
+            'iteration order, index, dindex, infimum/supremum/atoms and neighbour tuple order are compared with '
+            '(len, positions) sort keys on three lattices per table.', '3 C06'),
+    'C07': ('all ordered concept pairs + drawn multisets vs least-upper / greatest-lower bound found by search; algebraic laws',
+            'join/meet (n-ary, binary, operators) must return the member that is the bound found by search among the '
+            'reference concepts; lattice laws asserted directly.', '3 C07'),
+    'C08': ('all ordered concept pairs vs set formulas on position sets',
+            'the eight order predicates and four relation predicates are compared with the set formulas of the '
+            'property text for every ordered pair.', '3 C08'),
+    'C09': ('all concepts, all pairs and drawn multisets of seeds vs reference filters/ideals as exact ordered lists',
+            'upset/downset/upset_union/downset_union lists must equal the reference up/down-sets sorted by index/dindex.', '3 C09'),
+    'C10': ('exhaustive + Hypothesis tables vs reference object/attribute concepts, label unions, atoms and string rendering',
+            'reduced labels, their unions along up/downsets, concept.atoms and str() are compared with the reference model.', '3 C10'),
+    'C13': ('bounded exhaustive state x operation x probe enumeration + Hypothesis rule-based state machine vs ordered-table model',
+            'every visible definition over a small name universe x every operation instance (x every probing operation '
+            'as a further step) and long random histories over larger universes are compared step by step with a '
+            'two-lists-and-a-set model, including rejected calls leaving the state unchanged.', '3 C13'),
+    'C14': ('exhaustive source x other x derivation x follow-up edit enumeration + pool state machine vs ordered-table model; aliasing by edit-and-compare',
+            'every pair of small definitions x every derivation x every single follow-up edit on each side, a pool '
+            'state machine, and Context<->Definition round trips on Hypothesis tables.', '3 C14'),
+    'C15': ('metamorphic relations (permutation, transposition, duplication) on exhaustive + Hypothesis tables, no reference model',
+            'label-level statements about concepts, covers, joins, meets, relations and the FCbO generators are compared '
+            'between a table and its transformed versions.', '3 C15'),
+    'C16': ('exhaustive + biased Hypothesis tables vs classification rebuilt from the four-combination table',
+            'relations() (with and without unary) and its printed forms are compared with an oracle built from the '
+            'property text.', '3 C16'),
+    'C18': ('exhaustive + Hypothesis tables x all concepts vs brute-force generating subsets',
+            'attributes()/minimal() are compared with brute-force enumeration of generating subsets of each intent.', '3 C18'),
+    'C19': ('systematic single/double corruption of valid inputs + Hypothesis, vs independent rule predicate',
+            'every small table x every corruption instance and pair of corruption kinds is fed to Context()/fromdict(); '
+            'acceptance must coincide with an independent rule predicate and rejection must be ValueError.', '3 C19'),
+    'C20': ('exhaustive + Hypothesis tables, token and default label callbacks, independent DOT statement parser vs reference covers and labels',
+            'the DOT body is parsed independently and compared with the reference cover relation and reduced labelling.', '3 C20'),
 }
 
 
